@@ -301,14 +301,15 @@ package block
 //@                       || NumPending(m.pendingData.base) >= m.config.Node.MaxPendingHeadersAndData)
 
 //@ func (m *Manager) publishBlockInternal(ctx) (err)
-//@   property C01
+//@   property C01:-taken-batch-kept
+//@   property C11:taken-batch-kept
 //@   property C04:kind:crash,kind:frame,height,state,inv-state,inv-tip,inv-genesis,inv-no-future
 //@   property C08:refuse,no-refuse
 //@   requires [wiring] m.metrics != nil && m.headerCache != nil && m.pendingHeaders != nil && m.pendingHeaders.base != nil && m.pendingData != nil && m.pendingData.base != nil
 //@                       && m.store != nil && m.pendingHeaders.base.store == m.store && m.pendingData.base.store == m.store && m.daHeight != nil
 //@   requires [inv] ChainInv(m)
 //@   observe hq := call Height@1
-//@   observe gnb := call GetNextBatch
+//@   observe rb := call retrieveBatch
 //@   observe sh := call SetHeight
 //@   modifies m.lastState, m.lastBatchData, m.headerCache.seen,
 //@            durable m.store.height, durable m.store.stateAt, durable m.store.hasState, durable m.store.meta["l"], durable m.store.metaHas["l"],
@@ -337,6 +338,10 @@ package block
 //@   ensures [inv-pending-link] !m.store.faulty && m.store.has[m.store.height + 1] ==> Linked(m, m.store, m.store.height + 1)
 //@   ensures [inv-no-future] !m.store.faulty ==> InvNoFuture(m)
 //@   ensures [inv-genesis] !m.store.faulty ==> InvGenesis(m)
+// C11: a batch that has been taken from the sequencer (which has durably removed it from its queue)
+// is in the stored block at the next height whenever the step ends or the node crashes
+//@   ensures [taken-batch-kept] rb && rb.res1 == nil ==> m.store.has[old(m.store.height) + 1] && m.store.txsAt[old(m.store.height) + 1] == TxsId(rb.res0.Batch.Transactions)
+//@   crash_inv [taken-batch-kept] rb && rb.res1 == nil ==> m.store.has[old(m.store.height) + 1] && m.store.txsAt[old(m.store.height) + 1] == TxsId(rb.res0.Batch.Transactions)
 //@   crash_inv [height-not-ahead] m.store.hasState && m.store.height <= m.store.stateAt.lastBlockHeight
 //@   crash_inv [state-has-block] m.store.stateAt.lastBlockHeight > old(m.store.height) ==> m.store.has[m.store.stateAt.lastBlockHeight]
 
@@ -403,6 +408,10 @@ package block
 //@   ensures [inv] !m.store.faulty ==> SyncInv(m)
 //@   observe ab := call applyBlock
 //@   ensures [no-halt] err != nil ==> ctxDone(ctx) || m.store.faulty || (ab && ab.res1 != nil)
+// C11: a batch that has been taken from the sequencer (which has durably removed it from its queue)
+// is in the stored block at the next height whenever the step ends or the node crashes
+//@   ensures [taken-batch-kept] rb && rb.res1 == nil ==> m.store.has[old(m.store.height) + 1] && m.store.txsAt[old(m.store.height) + 1] == TxsId(rb.res0.Batch.Transactions)
+//@   crash_inv [taken-batch-kept] rb && rb.res1 == nil ==> m.store.has[old(m.store.height) + 1] && m.store.txsAt[old(m.store.height) + 1] == TxsId(rb.res0.Batch.Transactions)
 //@   crash_inv [height-not-ahead] m.store.hasState && m.store.height <= m.store.stateAt.lastBlockHeight
 //@   crash_inv [state-at-most-one-ahead] m.store.stateAt.lastBlockHeight <= currentHeight + 1 && m.store.height >= currentHeight
 //@   crash_inv [state-has-block] m.store.stateAt.lastBlockHeight > m.store.height ==> m.store.has[m.store.stateAt.lastBlockHeight]
@@ -482,6 +491,44 @@ package block
 // a notification that arrives while a block is being produced stays in the channel: nobody
 // else drains it
 //@ recvonly txNotifyCh in lazyAggregationLoop, normalAggregationLoop property C17
+
+// ---- C11: from the mempool to the sequencer ------------------------------------------------------
+
+// the seen-set is keyed by the hex of the transaction's sha256
+//@ pred SeenKey(t) := dskey(hex(sha256(val(t))))
+
+//@ func hashTx(tx) (s)
+//@   property C11
+//@   ensures [hash] s == hex(sha256(val(tx)))
+
+// One reaping round. A transaction is handed to the sequencer only if it is not in the seen-set,
+// every offered transaction that is not in the seen-set is handed over (none is dropped by the
+// filter), the seen-set grows only after the sequencer accepted the hand-off and only by
+// transactions that were handed over; a refused hand-off marks nothing, so the round is retried.
+//@ func (r *Reaper) SubmitTxs()
+//@   property C11
+//@   requires [wiring] r.exec != nil && r.sequencer != nil && r.seenStore != nil && r.logger != nil
+//@   observe gt := call GetTxs
+//@   observe sub := call SubmitBatchTxs
+//@   observe put := call Put
+//@   observe ntf := call NotifyNewTransactions
+//@   modifies durable r.seenStore.kv, durable r.seenStore.kvHas, durable r.seenStore.size
+//@   loop 1 invariant [only-unseen] forall j :: 0 <= j && j < len(newTxs) ==> !r.seenStore.kvHas[SeenKey(newTxs[j])]
+//@   loop 1 invariant [none-dropped] rangeindex >= -1 && (!r.seenStore.dsFaulty ==> forall i :: 0 <= i && i <= rangeindex && i < len(txs) && !r.seenStore.kvHas[SeenKey(txs[i])] ==> exists j hint len(newTxs) - 1 :: 0 <= j && j < len(newTxs) && newTxs[j] == txs[i])
+//@   loop 1 invariant [untouched] sub.count == 0 && put.count == 0 && r.seenStore.kvHas == old(r.seenStore.kvHas)
+//@   loop 2 invariant [marks-only-handed-over] sub.count == 1 && sub.res1 == nil && forall k :: r.seenStore.kvHas[k] && !old(r.seenStore.kvHas)[k] ==> exists j hint rangeindex :: 0 <= j && j < len(newTxs) && k == SeenKey(newTxs[j])
+//@   loop 2 invariant [marked-so-far] rangeindex >= -1 && (!r.seenStore.dsFaulty ==> forall j :: 0 <= j && j <= rangeindex && j < len(newTxs) ==> r.seenStore.kvHas[SeenKey(newTxs[j])])
+//@   loop 2 invariant [marks-kept] forall k :: old(r.seenStore.kvHas)[k] ==> r.seenStore.kvHas[k]
+//@   ensures [one-hand-off] sub.count <= 1 && gt.count == 1
+//@   ensures [handed-over-unseen-only] sub ==> sub.arg2.Batch != nil && len(sub.arg2.Batch.Transactions) > 0 && forall j :: 0 <= j && j < len(sub.arg2.Batch.Transactions) ==> !old(r.seenStore.kvHas)[SeenKey(sub.arg2.Batch.Transactions[j])]
+//@   ensures [none-dropped] gt.res1 == nil && !r.seenStore.dsFaulty ==> forall i :: 0 <= i && i < len(gt.res0) && !old(r.seenStore.kvHas)[SeenKey(gt.res0[i])] ==> sub && exists j :: 0 <= j && j < len(sub.arg2.Batch.Transactions) && sub.arg2.Batch.Transactions[j] == gt.res0[i]
+//@   ensures [chain-id] sub ==> val(sub.arg2.Id) == bytesOf(r.chainID)
+//@   ensures [refused-marks-nothing] !sub || sub.res1 != nil ==> put.count == 0 && r.seenStore.kvHas == old(r.seenStore.kvHas) && ntf.count == 0
+//@   ensures [marks-only-handed-over] forall k :: r.seenStore.kvHas[k] && !old(r.seenStore.kvHas)[k] ==> sub && sub.res1 == nil && exists j :: 0 <= j && j < len(sub.arg2.Batch.Transactions) && k == SeenKey(sub.arg2.Batch.Transactions[j])
+//@   ensures [marks-all-handed-over] sub && sub.res1 == nil && !r.seenStore.dsFaulty ==> forall j :: 0 <= j && j < len(sub.arg2.Batch.Transactions) ==> r.seenStore.kvHas[SeenKey(sub.arg2.Batch.Transactions[j])]
+//@   ensures [marks-kept] forall k :: old(r.seenStore.kvHas)[k] ==> r.seenStore.kvHas[k]
+//@   ensures [notifies] sub && sub.res1 == nil && r.manager != nil ==> ntf.count == 1
+//@   crash_inv [mark-after-hand-off] forall k :: r.seenStore.kvHas[k] && !old(r.seenStore.kvHas)[k] ==> sub && sub.res1 == nil
 
 // ---- C09: scanning the DA layer ----------------------------------------------------------------
 
